@@ -70,7 +70,9 @@ fn ctx() -> &'static Ctx {
         capture::install();
         let prop = std::env::var("VH_FUZZ_PROP").unwrap_or_else(|_| "C01".into());
         let mut def = props::get(&prop, true).expect("property");
-        def.profiles.retain(|p| !p.name.ends_with("-cyclic"));
+        if !cfg!(feature = "deadlock-detection") {
+            def.profiles.retain(|p| !p.name.ends_with("-cyclic"));
+        }
         Ctx {
             def,
             known: runner::KnownFile::load(&std::env::var("VH_KNOWN").unwrap_or_else(|_| "/verif/known_findings.json".into())),
